@@ -283,9 +283,11 @@ class H:
             Engine.cur.assume(T(cond))
         return ok
 
-    def ensure(self, clause, cond, detail=None):
+    def ensure(self, clause, cond, detail=None, free=False):
+        """free=True: discharge the goal *without* the path hypotheses (a stronger statement; used for goals that
+        are unconditional identities, so that unrelated nonlinear hypotheses cannot slow the solver down)."""
         if self.sym:
-            return self._ensure_sym(clause, cond, detail)
+            return self._ensure_sym(clause, cond, detail, free)
         else:
             ok = bool(cond)
             prev = self.conc_results.get(clause, True)
@@ -299,7 +301,7 @@ class H:
             clause, dict(status="proved", vcs=0, discharged=0, time=0.0, model=None, detail=None, trivial=0)
         )
 
-    def _ensure_sym(self, clause, cond, detail):
+    def _ensure_sym(self, clause, cond, detail, free=False):
         eng = Engine.cur
         rec = self._rec(clause)
         rec["vcs"] += 1
@@ -311,10 +313,15 @@ class H:
             goal = z3.BoolVal(False)
         else:
             goal = T(cond)
-        st, model, dt = symx.check(eng.hyps(), goal, self.clause_timeout_ms)
+        hyps = [] if free else eng.hyps()
+        st, model, dt = symx.check_staged(hyps, goal, self.clause_timeout_ms)
+        if free and st != "unsat":
+            st, model, dt2 = symx.check(eng.hyps(), goal, self.clause_timeout_ms)  # not an identity after all: decide it in context
+            dt += dt2
         self.queries += 1
         self.solver_s += dt
         rec["time"] += dt
+        rec["tmax"] = max(rec.get("tmax", 0.0), dt)
         if st == "unsat":
             rec["discharged"] += 1
             return True
@@ -538,7 +545,7 @@ def run_proof(harness: Harness, tier="quick", seed=0, crosscheck=3):
     vcs = disc = 0
     worst = "proved"
     for cname, rec in h.clauses.items():
-        out["clauses"][cname] = {k: rec[k] for k in ("status", "vcs", "discharged", "trivial", "detail", "model", "all_counter_models") if k in rec}
+        out["clauses"][cname] = {k: rec[k] for k in ("status", "vcs", "discharged", "trivial", "detail", "model", "all_counter_models", "tmax") if k in rec}
         out["clauses"][cname]["time"] = round(rec["time"], 4)
         if "cvc5" in rec:
             out["clauses"][cname]["cvc5"] = rec["cvc5"]
